@@ -1,21 +1,28 @@
 (* Props/C18.v -- C18: equal inputs give byte-identical output.
 
    What is proved, for ALL projects / permutations / histories, over Model/Determinism.v (which interprets the
-   sort-key tuples, enum tables and suffix lists REGENERATED from /repo into Gen/TablesC18.v):
+   sort-key tuples, enum tables, suffix lists and build-time sources REGENERATED from /repo into Gen/TablesC18.v):
      * the order in which modules are created does not depend on how directories are listed  (C18_fs_order_free)
      * sorted() over a set with the keys pydoctor uses there is a function of the set; every sorted() is a
        permutation, ascending, ties in input order                                           (C18_sort_keys_total)
      * every remaining use of System.root_names, the project name, the root-kind list: independent of the
        iteration order of the sets                                    (C18_set_order_free, C18_run_deterministic)
+       -- the guess as it was before commit 17874d0 is refuted         (C18_set_order_old_refuted / _partial)
      * ids handed out by the class-level counters are a function of the position in the rendering sequence of
-       ONE process                                                                        (C18_counters_run_local)
+       ONE process                              (C18_counters_run_local; a second in-process run: _refuted)
+     * with SOURCE_DATE_EPOCH or --buildtime the time stamp is not the clock's             (C18_buildtime_fixed)
      * writing over the result of the same run gives the same directory                   (C18_overwrite_complete,
-                                                                                          C18_rerun_same_output)
-     * the table of every set / root_names / directory-listing occurrence in pydoctor's source, regenerated on
-       every run: each is consumed in an order-free context                               (order_sources_checked)
+                                                                C18_rerun_same_output, C18_static_writes_commute)
+     * KNOWN FINDING: a template directory with names differing only in case               (C18_template_listing_refuted
+                                                                                           / _partial)
+     * tables regenerated on every run: every set / root_names / directory-listing occurrence in pydoctor's source is
+       consumed in an order-free context (order_sources_checked), every writing open() truncates and the symlink is
+       unlinked first (write_discipline_checked), no clock read reaches the output except the default build time
+       (clock_checked), _lckey contains the full name and enum names are distinct (key_tables_checked)
    What is NOT proved (residual, only observed by the byte-for-byte differential of harness/c18.py): that twisted's
    flattening, lunr, json.dumps, zlib and docutils are deterministic functions of the sequences they are given;
-   that no order source exists outside the syntactic classes the translator recognises (e.g. a dict keyed by id()). *)
+   that no order source exists outside the syntactic classes the translator recognises (e.g. a dict keyed by id());
+   that the extension load order (an unsorted listing of pydoctor's own package) is immaterial. *)
 From Coq Require Import ZArith NArith List Bool Sorting.Permutation.
 From PydoctorVerif Require Import Base.Sexp Model.DetTypes Gen.TablesC18 Model.Determinism Spec.SortSpec
      Proofs.DeterminismProofs.
